@@ -994,9 +994,9 @@ struct Fill { int slot; int alpha; int pat; };
 struct Desc { int arch = 0 /* 0 x64 native, 1 x86-32 simulated, 2 AArch64 simulated */; int shape = 0, K = 0, n = 1, am = 6, vm = 0; std::vector<Fill> fills; };
 static const char* const kArchName[] = {"x64", "x86", "a64"};
 
-enum { SH_STRAIGHT, SH_DIAMOND, SH_LOOP, SH_NESTED, SH_LOOPCOND, SH_IRREDUCIBLE, SH_JT3, SH_JT2, SH_CALLMID, SH_CALLLOOP, SH_TWOCALLS, SH__COUNT };
-static const char* const kShapeName[] = {"straight", "diamond", "loop", "nested-loop", "loop-cond", "irreducible", "jumptable3", "jumptable2", "call-mid", "call-loop", "two-calls"};
-static const int kShapeSlots[] = {2, 4, 4, 4, 4, 4, 4, 3, 2, 2, 3};
+enum { SH_STRAIGHT, SH_DIAMOND, SH_LOOP, SH_NESTED, SH_LOOPCOND, SH_IRREDUCIBLE, SH_JT3, SH_JT2, SH_CALLMID, SH_CALLLOOP, SH_TWOCALLS, SH_LOOPLOCAL_E, SH_LOOPLOCAL_L, SH__COUNT };
+static const char* const kShapeName[] = {"straight", "diamond", "loop", "nested-loop", "loop-cond", "irreducible", "jumptable3", "jumptable2", "call-mid", "call-loop", "two-calls", "loop-local-early", "loop-local-late"};
+static const int kShapeSlots[] = {2, 4, 4, 4, 4, 4, 4, 3, 2, 2, 3, 4, 4};
 
 enum { NEED_RDX = 1, NEED_AB_DISTINCT = 2, NEED_XMM_ONLY = 4, NEED_VEX = 8, NEED_NOT_Z = 16, NEED_BC_DISTINCT = 32, NEED_64 = 64, NEED_NATIVE = 128, NEED_3REGS = 256 };
 
@@ -1226,7 +1226,7 @@ void PB::slot(int s) {
 
 // ---- program construction -------------------------------------------------------------------------------
 static bool shape_uses_sel(int sh) { return sh == SH_DIAMOND || sh == SH_IRREDUCIBLE || sh == SH_JT3 || sh == SH_JT2; }
-static bool shape_uses_cnt(int sh) { return sh == SH_LOOP || sh == SH_NESTED || sh == SH_LOOPCOND || sh == SH_IRREDUCIBLE || sh == SH_CALLLOOP; }
+static bool shape_uses_cnt(int sh) { return sh == SH_LOOPLOCAL_E || sh == SH_LOOPLOCAL_L || sh == SH_LOOP || sh == SH_NESTED || sh == SH_LOOPCOND || sh == SH_IRREDUCIBLE || sh == SH_CALLLOOP; }
 
 static void call(PB& b, int fn, int ret) {
   // AArch64 calls go through a register: 8 register arguments + the target need 9 allocatable registers
@@ -1253,6 +1253,10 @@ static bool build_prog(const Desc& d, PB& b) {
   for (int i = 0; i < d.n; i++) b.dv.push_back(p.newval(b.dk, "d" + std::to_string(i)));
   for (int i = 0; i < nv; i++) b.vv.push_back(p.newval(b.vkind, "v" + std::to_string(i)));
   for (int i = 0; i < nk; i++) b.kv.push_back(p.newval(KK, "k" + std::to_string(i)));
+  // loop-local shapes: a value that is live only around the back edge (defined before the loop, read inside, dead after it);
+  // "early" = the first virtual register of the function (lowest liveness bit), "late" = created after all data values
+  int lw = -1;
+  if (d.shape == SH_LOOPLOCAL_E) { lw = p.newval(b.dk, "lw"); b.I(O_MOVI, lw, -1, -1, 0x33); }
   // init: data values come from the arguments while there are some, then from the input area of the buffer
   for (int i = 0; i < d.n; i++) {
     if (3 + i < d.am) { p.arg_val[size_t(3 + i)] = b.dv[size_t(i)]; continue; }
@@ -1334,6 +1338,19 @@ static bool build_prog(const Desc& d, PB& b) {
       b.bind(l1); b.I(O_ADD, F, L); b.slot(2); if (d.shape == SH_JT3) b.jmp(le);
       if (d.shape == SH_JT3) { b.bind(l2); b.I(O_XOR, L, S); b.slot(3); }
       b.bind(le);
+      break;
+    }
+    case SH_LOOPLOCAL_E: case SH_LOOPLOCAL_L: {
+      int lh = b.label(), ls = b.label(), lx = b.label(); int t = b.tmp("t"), lacc = b.tmp("la");
+      if (lw < 0) { lw = p.newval(b.dk, "lw"); b.I(O_MOVI, lw, -1, -1, 0x55); }
+      b.I(O_MOVI, lacc, -1, -1, 0);
+      b.slot(0);
+      b.br(O_JZ, b.cnt, lx);
+      b.bind(lh); b.slot(1); b.I(O_ADD, lacc, lw); b.I(O_MOV, t, b.cnt); b.I(O_ANDI, t, -1, -1, 1); b.br(O_JZ, t, ls);
+      b.slot(2); b.I(O_ADD, F, L);
+      b.bind(ls); b.slot(3); b.br(O_DECJNZ, b.cnt, lh);
+      b.bind(lx);
+      b.extra.push_back(lacc);
       break;
     }
     case SH_CALLMID: {
@@ -1651,7 +1668,7 @@ int main(int argc, char** argv) {
   c.n("transitions") = c.n("traces");
   for (auto& kv : g_shape_count) c.n(("shape_" + kv.first).c_str()) = kv.second;
   c.strs["bound"] = bound + (g_stop ? " (capped by the deadline)" : "");
-  c.strs["rule"] = "programs = arch{x64 native, x86-32 simulated, AArch64 simulated} x shape{straight,diamond,loop,nested-loop,loop-cond,irreducible,jumptable3,jumptable2,call-mid,call-loop,two-calls} x register file K x pressure x "
+  c.strs["rule"] = "programs = arch{x64 native, x86-32 simulated, AArch64 simulated} x shape{straight,diamond,loop,nested-loop,loop-cond,irreducible,jumptable3,jumptable2,call-mid,call-loop,two-calls,loop-local-early,loop-local-late (a value live only around the back edge)} x register file K x pressure x "
                    "argument mode x value mode{gp64, xmm, ymm, zmm, k-mask, gp32} x slot fillings (alphabet of " + std::to_string(kAlphaCount) + " instruction forms x operand pattern{first/second/last/same-twice}); every program is built with the Compiler and allocated; "
                    "x64: assembled and executed natively on 4 data tuples x every control input (branch both ways, loops 0/1/3 trips, every jump-table target); x86-32/AArch64: the allocated node list is interpreted by engine/msim.h on the same inputs; "
                    "compared with the direct interpretation of the IR: return value, memory buffer (+ guards / any store outside buffer and stack), external-call log; callee-saved registers and stack pointer preserved; "
